@@ -513,7 +513,7 @@ def run(ctx):
             for npth in (None, 1, 2):
                 cases.append(dict(base, what='paths', scheme=scheme, num_paths=npth, cutoff=None))
         cases.append(dict(base, what='top_path'))
-    ng = ctx.n(1500, 30000)
+    ng = ctx.n(1500, 20000)
     for g in range(ng):
         r = rng.random()
         if r < 0.40:
@@ -523,7 +523,7 @@ def run(ctx):
         else:
             base = gen_degenerate(rng)
         cases += settings(rng, base)
-    nt = ctx.n(300, 6000)
+    nt = ctx.n(300, 4000)
     for g in range(nt):
         cases += settings(rng, gen_neartie(rng), dtype='float64')
     # the F16 diamond and the upstream graph at MSM-like magnitudes (1e-9 .. 1e-12)
